@@ -81,10 +81,13 @@ def classify(t, mode, opts):
     return f"not-idempotent:{(t or {}).get('short', 'style')}:{mode or 'default'}"
 
 
-def double_run(res, ctx, root, fname, body, args_extra, t, mode, label, rng, n_runs):
+def double_run(res, ctx, root, fname, body, args_extra, t, mode, label, rng, n_runs, raw=None):
     f = root / fname
     f.parent.mkdir(parents=True, exist_ok=True)
-    f.write_text(body, encoding="utf-8", newline="")
+    if raw is not None:
+        f.write_bytes(raw)
+    else:
+        f.write_text(body, encoding="utf-8", newline="")
     lic = str(f) + ".license"
     if os.path.exists(lic):
         os.unlink(lic)
@@ -209,6 +212,15 @@ def run_case(case, ctx):
                         double_run(res, ctx, root, f"s{res.n}/unknown.zzz", body, extra, {"short": name}, mode,
                                    f"--style {name} body={bname}", rng, 5 if rng.random() < 0.3 else 2)
                         res.cell(f"forced-style:{name}")
+                # a forced style and files whose header goes to FILE.license whatever the style says: binary by content,
+                # uncommentable by extension
+                for fn, raw in (("logo.png", trees.BINARY_BLOB), ("blob.dat", trees.BINARY_BLOB + b"more"), ("data.json", b'{"a": 1}\n'),
+                                ("tool", trees.BINARY_BLOB)):
+                    if rng.random() < 0.5:
+                        continue
+                    extra = ["-c", "Jane Doe", "-l", "MIT", "--year", "2020", "--style", name] + rng.choice([[], [], ["--fallback-dot-license"]])
+                    double_run(res, ctx, root, f"b{res.n}/{fn}", "", extra, {"short": name}, None, f"--style {name} on {fn}", rng, 3, raw=raw)
+                    res.cell("forced-style-on-binary-or-uncommentable")
             # pre-commented template (python shaped) on python files
             for bname, body in bodies(rng, styles["python"], ["#!"]):
                 double_run(res, ctx, root, f"c{res.n}/x.py", body, ["-c", "Jane Doe", "-l", "MIT", "--year", "2020", "--template", "precom"],
